@@ -238,6 +238,9 @@ func RunParent(id, tier string) int {
 		r := results[k]
 		base := filepath.Join(dir, fmt.Sprintf("shard-%d", k))
 		if r.exit != 0 {
+			// what the monitors of this shard had reported before the process died stands (each violation is written
+			// out as it is found and replays on its own)
+			viols = append(viols, readViol(base+".viol.json")...)
 			// crash or watchdog: attribute to the breadcrumb, confirm in a fresh child
 			cur, err := os.ReadFile(base + ".cur")
 			what := "crash"
